@@ -334,7 +334,10 @@ Inductive hop :=
 (* sentinel: peer 0 opens session 0 at locator 0 once; a later request with Start = 1 is a
    selector mismatch whose Misbehaviour callback tells the harness that the reader has finished
    everything submitted before *)
-Definition sentinel_open : request := mkReq 0 0 0 0 1 1 1 0.
+(* with MaxResponseChunks = 0 a request for one chunk would be refused: the sentinel session is
+   then opened by a request for zero chunks (the repaired code registers it all the same) *)
+Definition sentinel_open (cfg : config) : request :=
+  mkReq 0 0 0 0 1 1 (if c_maxchunks cfg =? 0 then 0 else 1) 0.
 Definition sentinel_ping : request := mkReq 0 0 1 1 1 1 0 0.
 
 Definition blocker_peer : N := 999999.
@@ -467,8 +470,8 @@ Fixpoint hrun (v : variant) (cfg : config) (db : list item) (held : bool) (st : 
 Definition hhistory (v : variant) (cfg : config) (db : list item) (hs : list hop)
   : list (bool * N) * state * list event :=
   let st0 := init cfg in
-  let ops0 := ORequest sentinel_open :: fst (sched_drain drain_fuel v cfg db
-                                               (fst (run v cfg db st0 [ORequest sentinel_open]))) in
+  let ops0 := ORequest (sentinel_open cfg) :: fst (sched_drain drain_fuel v cfg db
+                                               (fst (run v cfg db st0 [ORequest (sentinel_open cfg)]))) in
   let '(st1, e0) := run v cfg db st0 ops0 in
   let '(qs, st2, e1) := hrun v cfg db false st1 (hs ++ [HFlush]) in
   (qs, st2, e0 ++ e1).
